@@ -317,7 +317,7 @@ def run_scenarios(ctx, tree, scens, nworkers=6, **squid_kw):
     return asyncio.run(main())
 
 
-def run_scenarios_stores(ctx, tree, scens, nworkers=6, disk_sample=40, **squid_kw):
+def run_scenarios_stores(ctx, tree, scens, nworkers=6, disk_sample=40, prefer=None, **squid_kw):
     """All scenarios on the memory cache, plus a seeded sample of them (thorough: up to 10 x disk_sample) on a rock and a ufs
     cache_dir with the memory cache switched off.  Each scenario dict gets a 'store' entry.  Returns [(scenario, events)]."""
     import copy
@@ -329,7 +329,12 @@ def run_scenarios_stores(ctx, tree, scens, nworkers=6, disk_sample=40, **squid_k
     rnd = random.Random(ctx.seed * 31 + 7)
     n = min(len(scens), disk_sample * (10 if ctx.thorough else 1))
     for store in ('rock', 'ufs'):
-        pick = [copy.deepcopy(s) for s in rnd.sample(scens, n)]
+        chosen = rnd.sample(scens, n)
+        if prefer is not None:          # half of the sample from the classes the caller cares most about on disk
+            pref = [s for s in scens if prefer(s)]
+            rnd.shuffle(pref)
+            chosen = pref[:n // 2] + [s for s in chosen if not prefer(s)][:n - min(len(pref), n // 2)]
+        pick = [copy.deepcopy(s) for s in chosen]
         for s in pick:
             s['store'] = store
         out += run_scenarios(ctx, tree, pick, min(nworkers, 4), store=store, tag=store, **squid_kw)
